@@ -6,7 +6,7 @@ import ast
 from .. import actions, probe, repo, typed
 from ..absval import Const, Ctx, ListV, Node, TupleV, members
 from ..common import AnalysisError, Check, norm_stmt, parse_py
-from ..ir import Gather, Group, Lit, Ref, Rep, Tok, walk_alt_items
+from ..ir import Cut, Gather, Group, Lit, Look, Ref, Rep, Tok, walk_alt_items
 from .c01 import fallthrough_edges, level_ops
 
 X = probe.xonsh_attr
@@ -163,11 +163,26 @@ def rule_h3(chk: Check, I, ir):
         "Parser.proc_pyexpr": [probe.node("Name", "E")], "Parser.proc_inject": [ListV(probe.node("Constant", "ARG"), True)],
         "Parser.macro_call": [probe.node("Name", "F"), ListV(probe.tok("P", "MACRO_PARAM"))],
     }
+    # a builder whose (first) argument is the single token that makes up the whole construct may equally use that token's span
+    whole_token: set[str] = set()
+    for r, k, a in actions.all_alts(ir.rules):
+        if a.action is None:
+            continue
+        cons = [ni for ni in a.items if not isinstance(ni.item, (Look, Cut))]
+        if len(cons) == 1 and isinstance(cons[0].item, Tok) and cons[0].name:
+            for n in ast.walk(a.action):
+                if isinstance(n, ast.Call) and isinstance(n.func, ast.Attribute) and n.args and isinstance(n.args[0], ast.Name) \
+                        and n.args[0].id == cons[0].name:
+                    whole_token.add("Parser." + n.func.attr)
     for qual, pargs in cases.items():
         chk.count("H3-span")
         v = probe.call(I, qual, pargs, {}, with_span=True)
         srcs = {m.locsrc for m in members(v) if isinstance(m, Node)}
-        ok = bool(srcs) and all(s == (("peek()",), ("last()",)) for s in srcs)
+        first_label = getattr(pargs[0], "label", None)
+        okset = {(("peek()",), ("last()",))}
+        if qual in whole_token and first_label:
+            okset.add(((first_label,), (first_label,)))
+        ok = bool(srcs) and all(s in okset for s in srcs)
         chk.require(ok, "H3-span", qual, f"{repo.SUBHEADER} ({qual})",
                     f"the node returned by `{qual}` is located from {sorted(srcs)} instead of the span it was called with: the construct's "
                     f"node does not cover the construct's source text")
